@@ -184,7 +184,12 @@ def run_point_ops(env, sh):
             pt = R._point.get()
             env.check(pt.smul is not None, 'result comes from one native scalar multiplication')
             kb, base = pt.smul
-            env.check(core.SymBool.make(kb == ecnat._cbv(k, ecnat.SCALAR_BITS)), 'scalar passed to the native code == k')
+            same = core.SymBool.make(kb == ecnat._cbv(k, ecnat.SCALAR_BITS))
+            if curve.startswith('P-'):
+                # prime-order group: k and k mod n denote the same multiple of every point (a wrapper may reduce)
+                n_ord = int(ECC._curves[curve].order)
+                same = env.Or(same, core.SymBool.make(kb == ecnat._cbv(k % n_ord, ecnat.SCALAR_BITS)))
+            env.check(same, 'scalar passed to the native code == k (or k mod n on the prime-order curves)')
             bx = base.x
             env.check(bx == x0, 'multiplied point is P')
         else:
@@ -264,7 +269,8 @@ def run_point_ops(env, sh):
                 env.check((int(S.x), int(S.y)) == add(L, g), '%d*T + G == textbook sum' % k)
                 D = Q.copy().double()
                 env.check((int(D.x), int(D.y)) == add(L, L), 'double(%d*T) == textbook' % k)
-                for m in (0, 1, 2, 3, order, order + 1):
+                n_sub = int(ECC._curves[curve].order)       # order of the prime-order subgroup: scalars >= n on points outside it
+                for m in (0, 1, 2, 3, order, order + 1, n_sub, n_sub + 1, 8 * n_sub + 3):
                     M = Q * m
                     env.check((int(M.x), int(M.y)) == ecref.generic_smul(add, (0, 1), m, L), '%d * (%d*T) == textbook multiple' % (m, k))
             except ValueError as e:
@@ -536,7 +542,8 @@ HARNESSES = dict(dh_roles=Harness('dh_roles', run_dh_roles, max_paths=4000, budg
                  dh_refusals=Harness('dh_refusals', run_dh_refusals),
                  point_ops=Harness('point_ops', run_point_ops, max_paths=4000),
                  f25519=Harness('f25519', run_f25519), cswap448=Harness('cswap448', run_cswap448),
-                 bignum=Harness('bignum', run_bignum, timeout_ms=600000, budget_s=1500), ec_scalar_mem=ecc_c.HARNESS)
+                 bignum=Harness('bignum', run_bignum, timeout_ms=600000, budget_s=1500), ec_scalar_mem=ecc_c.HARNESS,
+                 ec_cmp_c=ecc_c.HARNESS_CMP)
 
 
 def shapes(tier):
@@ -568,6 +575,8 @@ def shapes(tier):
     # real C scalar multiplication on concrete operands (LLSYM as interpreter): scalars up to and beyond the order,
     # generator fast path and generic path, against the textbook multiple
     jobs += ecc_c.ec_scalar_shapes(tier)
+    for c in ('P-192', 'P-224', 'P-256', 'P-384', 'P-521') if th else ('P-192', 'P-256'):
+        jobs.append(('ec_cmp_c', dict(curve=c)))
     return jobs
 
 
